@@ -196,7 +196,39 @@ def F15_latlon_triples_node_mode():
     return None if out[0] == out[1] else f"pairs -> {out[0]}, triples -> {out[1]}"
 
 
-ALL = [F15_latlon_triples_node_mode, F1_hashseed, F2_long_edge, F3_latlon_box, F6c_latlon_inf, F4_sqlite_bb, F5a_parallel, F6a_obs_on_road,
+def F20_debug_placeholder_order_in_ne_layer():
+    """C19: under DEBUG a stopped placeholder in a non-emitting layer kept its dictionary position when a live candidate
+    for the same key arrived (direct dict writes of _match_non_emitting_states_inner): among exactly equally probable
+    non-emitting states another one ended the returned path."""
+    from leuvenmapmatching.map.inmem import InMemMap
+    from leuvenmapmatching.matcher.distance import DistanceMatcher
+    g = {"A": ((-0.25, 0), ["B", "D"]), "B": ((0.25, 2), ["A", "C", "E"]), "C": ((0.25, 4), ["B", "F"]), "D": ((2, 0), ["A", "E", "G"]),
+         "E": ((2, 2), ["B", "D", "F", "H"]), "F": ((2, 4.25), ["C", "E", "I"]), "G": ((4, 0), ["D", "H"]), "H": ((4, 2.25), ["E", "G", "I"]),
+         "I": ((4.25, 4), ["F", "H"])}
+    tr = [(2, 4.25), (4.25, 2.25), (2.25, 4.5)]
+    lg = logging.getLogger("be.kuleuven.cs.dtai.mapmatching")
+    out = []
+    for level in (logging.ERROR, logging.DEBUG):
+        old = lg.level
+        h = logging.NullHandler()
+        lg.addHandler(h)
+        lg.setLevel(level)
+        try:
+            m = InMemMap('m', use_latlon=False, use_rtree=False, graph={k: (v[0], list(v[1])) for k, v in g.items()})
+            mt = DistanceMatcher(m, obs_noise=1, obs_noise_ne=4, non_emitting_states=True, max_lattice_width=3, min_prob_norm=0.5,
+                                 avoid_goingback=True)
+            mt.match(tr[:1])
+            mt.match(tr[:2], expand=True)
+            mt.increase_max_lattice_width(3)
+            r = mt.match(tr[:3], expand=True)
+            out.append((list(r[0]), r[1]))
+        finally:
+            lg.setLevel(old)
+            lg.removeHandler(h)
+    return None if out[0] == out[1] else f"ERROR level -> {out[0]}, DEBUG level -> {out[1]}"
+
+
+ALL = [F20_debug_placeholder_order_in_ne_layer, F15_latlon_triples_node_mode, F1_hashseed, F2_long_edge, F3_latlon_box, F6c_latlon_inf, F4_sqlite_bb, F5a_parallel, F6a_obs_on_road,
        F6b_triples_planar_ne, F7_sqlite_reopen_flag, F8_debug_changes_result, F12_sqlite_float32]
 
 if __name__ == '__main__':
